@@ -113,13 +113,38 @@ DELEGATE_FUNCS = {"tree_to_dotfile"}
 #: builtins that may receive the subject without reading its structure
 HARMLESS_BUILTINS = {"isinstance", "id", "type"}
 #: builtins that consume a live view completely and return a detached value
-MATERIALIZERS = {"list", "tuple", "set", "frozenset", "sorted", "dict", "len", "bool", "sum", "any", "all", "str", "repr"}
+MATERIALIZERS = {"list", "tuple", "set", "frozenset", "sorted", "dict", "len", "bool", "sum", "any", "all", "str", "repr",
+                 "isinstance", "id", "type", "hash", "int", "float"}
+#: methods (of anything) whose RESULT is a freshly built, detached value even when the receiver is live
+#: (trusted like STRUCTURAL: Node.to_dict builds a new nested dict eagerly)
+DETACHING_METHODS = {"to_dict"}
+#: methods that consume their (live) arguments synchronously and keep no reference to them
+#: (trusted: Node._add_from copies the source branch node by node into the receiver's tree)
+NON_RETAINING_METHODS = {"_add_from"}
 MAX_PATHS = 32
 
 
+# LIVE VALUES.  `expr` answers whether the value of an expression may be a LIVE VIEW of the node structure: the
+# structure itself (a child list, a node), or something LAZY that will read it when consumed (the generator returned
+# by to_list_iter()/to_dot()/iterator(), a generator expression, map()/filter()/zip()/chain() of one, ...).  A live
+# value must not survive the `with` block unobserved:
+#   * every STORE of a live value taints the name it can be reached from afterwards - a plain name, the elements of a
+#     tuple/list target, a walrus target, and for `x.a = v`, `x[k] = v`, `x[k].a += v` the base name `x`; a method
+#     call `x.m(.., v, ..)` on a non-live receiver (append, update, setdefault, ...) taints `x` as well, and the
+#     result of ANY call that receives a live argument is live unless the callee is a known materialiser (list, tuple,
+#     dict, "".join, ... or a comprehension evaluated on the spot).  Each later use of a tainted name is a Read, so a
+#     view consumed after the block shows up as a Read after the Rel and the skeleton is not bracketed;
+#   * stores that cannot be followed are refused: through the tree object itself (`self.x = v`), into an object that
+#     is not reachable from a local name, `global`/`nonlocal`;
+#   * `return <live>` inside `with subject:` is refused (the caller would consume it after the release), so is any
+#     `yield`/`await` in a snapshot operation (a suspended generator would keep, or lazily take, the lock).
+# Taint is flow-sensitive in program order (it grows along the walk; branches join by union, loop bodies are walked
+# twice); closures (lambda, nested def) are refused if they mention a name that is tainted ANYWHERE in the function.
 def lock_skeleton(fn: ast.FunctionDef, subject: str):
     """All control-flow paths of a snapshot operation as event lists (see above)."""
     tainted: set[str] = set()
+    ever: set[str] = set()          # every name tainted anywhere in the function (first, collecting, walk)
+    state = {"collecting": True, "depth": 0}
 
     def bad(msg, n=None):
         raise Unsupported(f"lock skeleton of {fn.name}: {msg} (line {getattr(n, 'lineno', '?')})")
@@ -132,12 +157,53 @@ def lock_skeleton(fn: ast.FunctionDef, subject: str):
                 and not n.args and not n.keywords)
 
     def mentions_subject(n):
-        return any(isinstance(x, ast.Name) and (x.id == subject or x.id in tainted) for x in ast.walk(n))
+        return any(isinstance(x, ast.Name) and (x.id == subject or x.id in tainted or x.id in ever) for x in ast.walk(n))
+
+    def base_of(n):
+        while isinstance(n, (ast.Attribute, ast.Subscript, ast.Starred)):
+            n = n.value
+        return n
 
     def taint(target):
         for x in ast.walk(target):
             if isinstance(x, ast.Name):
                 tainted.add(x.id)
+
+    def taint_holder(obj, what, n):
+        """A live value was put into `obj` (store target / receiver of a retaining call)."""
+        b = base_of(obj)
+        if is_subject(b) or is_super_call(b):
+            bad(f"{what}: a live view is stored through the tree object itself", n)
+        if isinstance(b, ast.Name):
+            tainted.add(b.id)
+        else:
+            bad(f"{what}: a live view is stored into an object that cannot be followed", n)
+
+    def store(tg, live, pre, n):
+        if isinstance(tg, ast.Name):
+            if tg.id == subject:
+                bad(f"{subject} is rebound", n)
+            if live:
+                tainted.add(tg.id)
+            return
+        if isinstance(tg, (ast.Tuple, ast.List)):
+            for e in tg.elts:
+                store(e, live, pre, n)
+            return
+        if isinstance(tg, ast.Starred):
+            store(tg.value, live, pre, n)
+            return
+        if isinstance(tg, (ast.Attribute, ast.Subscript)):
+            b = base_of(tg)
+            if is_subject(b) or is_super_call(b):
+                bad(f"store through the tree object ({ast.unparse(tg)} = ...)", n)
+            for c in ast.iter_child_nodes(tg):      # receiver and index are evaluated (reads, if they are live)
+                if isinstance(c, ast.expr):
+                    expr(c, pre)
+            if live:
+                taint_holder(tg, f"{ast.unparse(tg)} = <live view>", n)
+            return
+        bad(f"assignment target {type(tg).__name__} not understood", n)
 
     def subject_member(attr, n, ev, *, call):
         if attr in ("__enter__", "__exit__"):
@@ -154,16 +220,19 @@ def lock_skeleton(fn: ast.FunctionDef, subject: str):
             return False
         bad(f"unknown attribute/method {attr} of {subject}", n)
 
-    def args_of(call, ev):
+    def args_of(call, ev) -> bool:
+        """Events of the arguments; True iff some argument is live."""
+        live = False
         for a in call.args:
             if not is_subject(a):
-                expr(a.value if isinstance(a, ast.Starred) else a, ev)
+                live = expr(a.value if isinstance(a, ast.Starred) else a, ev) or live
         for k in call.keywords:
             if not is_subject(k.value):
-                expr(k.value, ev)
+                live = expr(k.value, ev) or live
+        return live
 
     def expr(n, ev) -> bool:
-        """Append the events of evaluating n; True iff the value is a live view of the structure."""
+        """Append the events of evaluating n; True iff the value may be a live view of the structure."""
         if n is None:
             return False
         if isinstance(n, ast.Name):
@@ -173,6 +242,12 @@ def lock_skeleton(fn: ast.FunctionDef, subject: str):
                 ev.append("R")
                 return True
             return False
+        if isinstance(n, (ast.Yield, ast.YieldFrom, ast.Await)):
+            bad("yield/await in a snapshot operation (a suspended generator keeps, or lazily takes, the lock)", n)
+        if isinstance(n, ast.NamedExpr):
+            live = expr(n.value, ev)
+            store(n.target, live, ev, n)
+            return live
         if isinstance(n, ast.Attribute):
             if is_subject(n.value) or is_super_call(n.value):
                 if n.attr == "_lock":
@@ -202,13 +277,26 @@ def lock_skeleton(fn: ast.FunctionDef, subject: str):
                     return False
                 bad(f"{subject} passed to unknown callee", n)
             live_f = expr(f, ev)
-            args_of(n, ev)
+            arg_live = args_of(n, ev)
             if isinstance(f, ast.Name) and f.id in MATERIALIZERS:
                 return False
-            return live_f  # a method of a live object returns a live value; f(live) a detached one
+            if isinstance(f, ast.Attribute):
+                if f.attr in DETACHING_METHODS:
+                    return False
+                if f.attr == "join" and isinstance(f.value, (ast.Constant, ast.JoinedStr)):
+                    return False                      # "sep".join(view) consumes the view
+                if f.attr in NON_RETAINING_METHODS:
+                    return live_f
+                if arg_live and not live_f:
+                    # receiver.m(.., <live>, ..): the receiver may keep it (append, update, setdefault, ...)
+                    taint_holder(f.value, f"{ast.unparse(f)}(<live view>)", n)
+            # a method of a live object returns a live value; so does anything that was handed a live value
+            # (map, filter, zip, iter, enumerate, itertools.*, a wrapper class ...) unless it is a materialiser
+            return live_f or arg_live
         if isinstance(n, ast.FormattedValue) and is_subject(n.value):
             return False  # repr(tree) shows class and name only
         if isinstance(n, (ast.ListComp, ast.SetComp, ast.DictComp, ast.GeneratorExp)):
+            lazy = False
             for g in n.generators:
                 if is_subject(g.iter):
                     ev.append("R")
@@ -217,12 +305,13 @@ def lock_skeleton(fn: ast.FunctionDef, subject: str):
                     live = expr(g.iter, ev)
                 if live:
                     taint(g.target)
+                    lazy = True
                 for c in g.ifs:
                     expr(c, ev)
             for part in ([n.key, n.value] if isinstance(n, ast.DictComp) else [n.elt]):
                 expr(part, ev)
-            return isinstance(n, ast.GeneratorExp) and any(
-                is_subject(g.iter) or mentions_subject(g.iter) for g in n.generators)
+            # a generator expression is evaluated when it is consumed: live if anything in it touches the structure
+            return isinstance(n, ast.GeneratorExp) and (lazy or mentions_subject(n))
         if isinstance(n, ast.Lambda):
             if mentions_subject(n):
                 bad("lambda closes over the tree or a live view", n)
@@ -233,6 +322,7 @@ def lock_skeleton(fn: ast.FunctionDef, subject: str):
                 if isinstance(c, ast.expr):
                     expr(c, ev)
             return False
+        # containers, subscripts, arithmetic, conditional expressions, starred ...: live if a part is live
         live = False
         for c in ast.iter_child_nodes(n):
             if isinstance(c, ast.expr):
@@ -274,11 +364,17 @@ def lock_skeleton(fn: ast.FunctionDef, subject: str):
             if any(is_subject(it.context_expr) for it in s.items):
                 if len(s.items) != 1 or s.items[0].optional_vars is not None:
                     bad(f"`with {subject}` combined with other items or `as`", s)
-                return [(["A"] + e + ["L"], t) for e, t in block(s.body)]
+                state["depth"] += 1
+                try:
+                    inner = block(s.body)
+                finally:
+                    state["depth"] -= 1
+                return [(["A"] + e + ["L"], t) for e, t in inner]
             pre = []
             for it in s.items:
-                if expr(it.context_expr, pre) and it.optional_vars is not None:
-                    taint(it.optional_vars)
+                live = expr(it.context_expr, pre)
+                if it.optional_vars is not None:
+                    store(it.optional_vars, live, pre, s)
             return [(pre + e, t) for e, t in block(s.body)]
         if isinstance(s, (ast.For, ast.While)):
             pre = []
@@ -288,10 +384,10 @@ def lock_skeleton(fn: ast.FunctionDef, subject: str):
                     live = True
                 else:
                     live = expr(s.iter, pre)
-                if live:
-                    taint(s.target)
+                store(s.target, live, pre, s)
             else:
                 expr(s.test, pre)
+            block(s.body)          # first walk: what the body taints is visible at the top of the next iteration
             return [(pre + flat_reads_only(block(s.body) + block(s.orelse), "a loop", s), False)]
         if isinstance(s, ast.If):
             pre = []
@@ -300,7 +396,15 @@ def lock_skeleton(fn: ast.FunctionDef, subject: str):
             if all(not e and not t for e, t in alts):
                 return [(pre, False)]
             return dedupe([(pre + e, t) for e, t in alts])
-        if isinstance(s, (ast.Return, ast.Raise)):
+        if isinstance(s, ast.Return):
+            pre = []
+            live = expr(s.value, pre)
+            if live and state["depth"] > 0 and not state["collecting"]:
+                bad("`return` of a live (possibly lazy) view of the tree from inside `with "
+                    f"{subject}:` - it would be consumed after the release; materialise it (list(...), tuple(...), "
+                    "dict(...), a comprehension)", s)
+            return [(pre, True)]
+        if isinstance(s, ast.Raise):
             pre = []
             for c in ast.iter_child_nodes(s):
                 if isinstance(c, ast.expr):
@@ -317,18 +421,23 @@ def lock_skeleton(fn: ast.FunctionDef, subject: str):
             return [([], False)]
         if isinstance(s, ast.Expr) and isinstance(s.value, ast.Constant):
             return [([], False)]  # docstring
-        if isinstance(s, (ast.Assign, ast.AugAssign, ast.AnnAssign)):
+        if isinstance(s, (ast.Assign, ast.AnnAssign)):
             pre = []
             live = expr(s.value, pre) if s.value is not None else False
             for tg in (s.targets if isinstance(s, ast.Assign) else [s.target]):
-                if isinstance(tg, (ast.Name, ast.Tuple, ast.List)):
-                    if live:
-                        taint(tg)
-                else:
-                    expr(tg, pre)
+                store(tg, live, pre, s)
             return [(pre, False)]
+        if isinstance(s, ast.AugAssign):
+            pre = []
+            live = expr(s.value, pre)
+            store(s.target, live, pre, s)
+            if isinstance(s.target, ast.Name) and s.target.id in tainted:
+                pre.append("R")                      # x += ... reads x
+            return [(pre, False)]
+        if isinstance(s, (ast.Global, ast.Nonlocal)):
+            bad("global/nonlocal in a snapshot operation (stores cannot be followed)", s)
         if isinstance(s, (ast.Expr, ast.Assert, ast.Delete, ast.Pass, ast.Break, ast.Continue, ast.Import,
-                          ast.ImportFrom, ast.Global, ast.Nonlocal)):
+                          ast.ImportFrom)):
             pre = []
             for c in ast.iter_child_nodes(s):
                 if isinstance(c, ast.expr):
@@ -344,8 +453,14 @@ def lock_skeleton(fn: ast.FunctionDef, subject: str):
             out.append(e)
         return out
 
-    block(fn.body)            # first pass: collect the live names (taint is flow-insensitive)
-    paths = block(fn.body)    # second pass with the complete set
+    # first walks: collect every name that is tainted anywhere (for the closure checks); twice, so that a taint
+    # made late in the function is seen by an earlier closure as well
+    block(fn.body)
+    block(fn.body)
+    ever.update(tainted)
+    tainted.clear()
+    state["collecting"] = False
+    paths = block(fn.body)    # the walk that counts: taint grows in program order
     return dedupe([collapse(e) for e, _ in paths])
 
 
